@@ -415,7 +415,7 @@ theorem ord_anchorStep (a : Str) (n : Node) (c : Ctx) : Ord (anchorStep a n c).1
   apply ord_below
   exact List.Sublist.trans (flatMap_sublist_of_sublist sub List.filter_sublist) (anchorKids_sub a n c)
 
-variable {mt : Matcher} {dsc : Desc}
+variable {mt : Matcher} {dsc : Desc} {rt : Node}
 
 theorem yieldIf_sublist (inv : Bool) (r : Except Err Bool) (x : NC) : (yieldIf inv r x).1.Sublist [x] := by
   unfold yieldIf
@@ -500,14 +500,16 @@ theorem flatR_map_real (l : List NC) : flatR (l.map Res.real) = l := by
   | nil => rfl
   | cons x xs ih => simp only [flatR, List.map_cons, List.flatMap_cons] at ih ⊢; rw [ih]; rfl
 
-/-- Segments whose results come in document order without repetition: everything but `**` and slices. -/
+/-- Segments whose results come in document order without repetition: everything but `**`, slices and
+keyword searches (`[parent()]` climbs; inverted `max`/`min`/`unique` yield in the order of their loops). -/
 def _root_.Ypv.ESeg.ordered : ESeg → Bool
   | .traverse => false
   | .slice .. => false
+  | .keyword .. => false
   | _ => true
 
 theorem ord_stepSeg (s : ESeg) (hs : s.ordered = true) (rest : List ESeg) (tl : Bool) (n : Node) (c : Ctx) :
-    ∃ g : Gen NC, stepSeg mt dsc s rest tl n c = g.map Res.real ∧ Ord g.1 n c := by
+    ∃ g : Gen NC, stepSeg mt dsc rt s rest tl n c = g.map Res.real ∧ Ord g.1 n c := by
   cases s with
   | key k => exact ⟨_, by simp only [stepSeg], ord_keyStep k tl n c⟩
   | index i => exact ⟨_, by simp only [stepSeg], ord_indexStep i n c⟩
@@ -519,27 +521,27 @@ theorem ord_stepSeg (s : ESeg) (hs : s.ordered = true) (rest : List ESeg) (tl : 
     cases rest with
     | nil => exact ⟨Gen.ofList (kids n c), by simp [stepSeg, reals, Gen.map, Gen.ofList], ord_kids (List.Sublist.refl _)⟩
     | cons nxt rest' =>
-      exact ⟨Gen.filterFirst (fun x => stepSeg mt dsc nxt rest' true x.1 x.2) (deepKids n c), by simp only [stepSeg],
+      exact ⟨Gen.filterFirst (fun x => stepSeg mt dsc rt nxt rest' true x.1 x.2) (deepKids n c), by simp only [stepSeg],
         ord_kids (List.Sublist.trans (filterFirst_sublist _ _) (deepKids_sublist n c))⟩
   | traverse => simp [ESeg.ordered] at hs
-  | keyword inv k p => exact ⟨Gen.fail .outOfModel, by simp [stepSeg], ord_nil _ _⟩
+  | keyword inv k p => simp [ESeg.ordered] at hs
   | collector e op => exact ⟨Gen.fail .outOfModel, by simp [stepSeg], ord_nil _ _⟩
   | unknown => exact ⟨Gen.fail .outOfModel, by simp [stepSeg], ord_nil _ _⟩
 
 /-- The results of a `**`-free, slice-free path come in document order, pairwise disjoint. -/
 theorem ord_required : ∀ (segs : List ESeg), (∀ s ∈ segs, s.ordered = true) → ∀ (n : Node) (c : Ctx),
-    Ord (flatR (required mt dsc segs (.real (n, c))).1) n c := by
+    Ord (flatR (required mt dsc rt segs (.real (n, c))).1) n c := by
   intro segs
   induction segs with
   | nil => intro _ n c; simpa [required, one, flatR] using ord_self n c
   | cons s rest ih =>
     intro hs n c
-    obtain ⟨g, hg, hord⟩ := ord_stepSeg (mt := mt) (dsc := dsc) s (hs s (by simp)) rest true n c
+    obtain ⟨g, hg, hord⟩ := ord_stepSeg (mt := mt) (dsc := dsc) (rt := rt) s (hs s (by simp)) rest true n c
     have ih' := ih (fun t ht => hs t (by simp [ht]))
     simp only [required, stepRes, hg, bind_map]
-    have h1 := bind_fst_sublist g (fun x => required mt dsc rest (Res.real x))
-    have h2 : (flatR (g.bind fun x => required mt dsc rest (Res.real x)).1).Sublist
-        (g.1.flatMap (fun x => flatR (required mt dsc rest (Res.real x)).1)) := by
+    have h1 := bind_fst_sublist g (fun x => required mt dsc rt rest (Res.real x))
+    have h2 : (flatR (g.bind fun x => required mt dsc rt rest (Res.real x)).1).Sublist
+        (g.1.flatMap (fun x => flatR (required mt dsc rt rest (Res.real x)).1)) := by
       have := flatMap_sublist_of_sublist (fun r => match r with | Res.real x => [x] | Res.virt items => items) h1
       simpa [flatR, List.flatMap_assoc] using this
     exact ord_sublist h2 (ord_flatMap _ hord (fun x _ => ih' x.1 x.2))
